@@ -1,6 +1,7 @@
 package main
 
 import (
+	"fmt"
 	"math/big"
 
 	"github.com/cockroachdb/apd/v3"
@@ -64,6 +65,26 @@ func (r *rng) rootOperand(p int, cube bool) *apd.Decimal {
 
 func init() {
 	streams["roots"] = func(r *rng, n int) {
+		// every perfect square and cube of a small root, at every precision from the root's digit count up:
+		// the exactness checks of Sqrt and Cbrt fail, if at all, on isolated (root, precision) pairs
+		for k := 1; k <= 1500; k++ {
+			nd := len(fmt.Sprint(k))
+			for p := nd; p <= nd+6 && p <= 12; p++ {
+				if !mine() {
+					continue
+				}
+				for _, op := range []string{"Sqrt", "Cbrt"} {
+					deg := int64(2)
+					if op == "Cbrt" {
+						deg = 3
+					}
+					c := new(big.Int).Exp(big.NewInt(int64(k)), big.NewInt(deg), nil)
+					ctx := apd.Context{Precision: uint32(p), MaxExponent: 200, MinExponent: -200, Rounding: roundings[(k+p)%8]}
+					x := mkDec(apd.Finite, op == "Cbrt" && k%2 == 0, c, int(deg)*((k%5)-2))
+					emit(runArith(&arithCase{Op: op, Ctx: ctx, X: x, Alias: "n", DPre: new(apd.Decimal)}))
+				}
+			}
+		}
 		for i := 0; i < n; i++ {
 			p := r.pick([]int{1, 2, 3, 3, 4, 5, 7, 9, 11, 16, 20})
 			ctx := apd.Context{Precision: uint32(p), MaxExponent: int32(r.rangeI(60, 300)), MinExponent: -int32(r.rangeI(60, 300)),
